@@ -9,6 +9,7 @@
    ChargingNetwork.is_feasible (Model/Feasible.v, C06).  Statements only. *)
 From Coq Require Import String Reals List Bool QArith Qreals.
 From ACN Require Import Base.Num Base.NumR Model.Feasible Gen.Sites Model.Sites Proofs.Sites.
+From ACN Require Proofs.Feasible.
 From ACN Require Gen.SiteLim_R.
 Import ListNotations.
 Open Scope R_scope.
@@ -157,6 +158,20 @@ Proof.
   - intros ja jb jc rating members Hin. apply C16_panel with (T := T) (jb := jb) (jc := jc); auto.
 Qed.
 Print Assumptions C16_sites_safe.
+
+(* The linear relaxation is one of the network's feasibility reports: for a non-negative schedule,
+   whatever the site network accepts with linear=True it also accepts phase-aware (C06), so every
+   bound above holds for schedules reported feasible by either check. *)
+Theorem C16_linear_report_safe : forall (s : site) (X : list (list R)) (T : nat) ovt ort,
+  all_nonneg RF X = true ->
+  net_is_feasible RF (site_net_R s) X T true ovt ort = true ->
+  net_is_feasible RF (site_net_R s) X T false ovt ort = true.
+Proof.
+  intros s X T ovt ort Hnn H.
+  apply Proofs.Feasible.net_linear_conservative; auto.
+  unfold site_net_R; cbn [n_cis]. apply Proofs.Feasible.unit_cis_deg.
+Qed.
+Print Assumptions C16_linear_report_safe.
 
 (* non-vacuity: the Caltech dump has a transformer with stations behind it and pods, a concrete
    schedule (5 A on every EVSE) that its network accepts, and one (32 A) that it rejects *)
